@@ -157,4 +157,345 @@ theorem parse_plus (git : Bool) (n : Option Bytes) (rest : Bytes) (hn : n ≠ so
   apply parsePatchLine_mline
   rw [meta_plus]; exact nameBody_fwd _ n rest hn
 
+/-! ### sequences of metadata lines -/
+
+/-- `k` iterations of `filePatchLoop` (in git mode) lead from one state to the other -/
+def Steps (total k : Nat) (inp : Bytes) (ext : Bool) (m : Meta) (inp' : Bytes) (ext' : Bool) (m' : Meta) : Prop :=
+  ∀ f wH hd, filePatchLoop total (f + k) inp wH hd true ext m = filePatchLoop total f inp' wH hd true ext' m'
+
+theorem Steps_refl (total : Nat) (inp : Bytes) (ext : Bool) (m : Meta) : Steps total 0 inp ext m inp ext m :=
+  fun _ _ _ => rfl
+
+theorem Steps_trans {total k1 k2 : Nat} {a b c : Bytes} {e1 e2 e3 : Bool} {m1 m2 m3 : Meta}
+    (h1 : Steps total k1 a e1 m1 b e2 m2) (h2 : Steps total k2 b e2 m2 c e3 m3) :
+    Steps total (k2 + k1) a e1 m1 c e3 m3 := by
+  intro f wH hd
+  rw [← Nat.add_assoc, h1, h2]
+
+theorem lineCond_of_hdr (m : Meta) (inp : Bytes) (h : hdrNoMatch inp = true) : lineCond m inp = true := by
+  simp [lineCond, h]
+
+theorem hdrNoMatch_append_of (p x : Bytes) (b : UInt8) (t : Bytes) (hp : p = b :: t) (hb : b ≠ 64) :
+    hdrNoMatch (p ++ x) = true := by
+  subst hp; exact hdrNoMatch_of_head b _ hb
+
+theorem Steps_one (total : Nat) (inp inp' : Bytes) (ext : Bool) (m m' : Meta) (pl : PatchLine)
+    (hc : hdrNoMatch inp = true) (hp : parsePatchLine true inp = .ok (inp', pl)) (hm : passMeta m pl = some m') :
+    Steps total 1 inp ext m inp' (passExt ext pl) m' :=
+  fun f wH hd => fpl_pass total f inp inp' wH hd true ext m m' pl (lineCond_of_hdr m inp hc) hp hm
+
+/-- the metadata in the stages of reading a written header -/
+def mk (o n : Filename) (ren : Bool) (op np : Option Nat) (oh nh : Option Bytes) : Meta :=
+  { old := some o, new := some n, renFrom := ren, renTo := ren, oldPerm := op, newPerm := np, oldHash := oh, newHash := nh }
+
+theorem block_rename (total : Nat) (ren : Bool) (o n rest : Bytes) (O N : Filename) (ext : Bool) :
+    ∃ k, k ≤ 2 ∧ Steps total k
+      ((if ren then sRenameFrom ++ writeName o ++ [10] ++ sRenameTo ++ writeName n ++ [10] else []) ++ rest) ext
+      (mk O N false none none none none) rest (ext || ren) (mk O N ren none none none none) := by
+  cases ren with
+  | false => exact ⟨0, by omega, by simpa using Steps_refl total rest ext _⟩
+  | true =>
+    refine ⟨1 + 1, by omega, ?_⟩
+    have s1 := Steps_one total _ _ ext (mk O N false none none none none) _ _
+      (hdrNoMatch_append_of sRenameFrom _ 114 _ rfl (by decide))
+      (parse_renameFrom o (sRenameTo ++ (writeName n ++ 10 :: rest))) rfl
+    have s2 := Steps_one total _ _ (passExt ext (.git .renameFrom))
+      { mk O N false none none none none with renFrom := true } _ _
+      (hdrNoMatch_append_of sRenameTo _ 114 _ rfl (by decide)) (parse_renameTo n rest) rfl
+    have := Steps_trans s1 s2
+    simpa [passExt, mk] using this
+
+theorem block_oldPerm (total : Nat) (del : Bool) (op : Option Nat) (rest : Bytes) (O N : Filename) (ren ext : Bool) :
+    (∀ x, op = some x → x < 8 ^ 6) →
+    ∃ k, k ≤ 1 ∧ Steps total k
+      ((match op with
+        | some m => (if del then sDeletedFileMode else sOldMode) ++ oct6 m ++ [10]
+        | none => []) ++ rest) ext
+      (mk O N ren none none none none) rest (ext || op.isSome) (mk O N ren op none none none) := by
+  intro hop
+  cases op with
+  | none => exact ⟨0, by omega, by simpa using Steps_refl total rest ext _⟩
+  | some x =>
+    refine ⟨1, by omega, ?_⟩
+    have hx := hop x rfl
+    cases del with
+    | true =>
+      have := Steps_one total _ _ ext (mk O N ren none none none none) _ _
+        (hdrNoMatch_append_of sDeletedFileMode _ 100 _ rfl (by decide)) (parse_deletedFileMode x rest hx) rfl
+      simpa [passExt, mk] using this
+    | false =>
+      have := Steps_one total _ _ ext (mk O N ren none none none none) _ _
+        (hdrNoMatch_append_of sOldMode _ 111 _ rfl (by decide)) (parse_oldMode x rest hx) rfl
+      simpa [passExt, mk] using this
+
+theorem block_newPerm (total : Nat) (cre : Bool) (op np : Option Nat) (rest : Bytes) (O N : Filename) (ren ext : Bool) :
+    (∀ x, np = some x → x < 8 ^ 6) →
+    ∃ k, k ≤ 1 ∧ Steps total k
+      ((match np with
+        | some m => (if cre then sNewFileMode else sNewMode) ++ oct6 m ++ [10]
+        | none => []) ++ rest) ext
+      (mk O N ren op none none none) rest (ext || np.isSome) (mk O N ren op np none none) := by
+  intro hnp
+  cases np with
+  | none => exact ⟨0, by omega, by simpa using Steps_refl total rest ext _⟩
+  | some x =>
+    refine ⟨1, by omega, ?_⟩
+    have hx := hnp x rfl
+    cases cre with
+    | true =>
+      have := Steps_one total _ _ ext (mk O N ren op none none none) _ _
+        (hdrNoMatch_append_of sNewFileMode _ 110 _ rfl (by decide)) (parse_newFileMode x rest hx) rfl
+      simpa [passExt, mk] using this
+    | false =>
+      have := Steps_one total _ _ ext (mk O N ren op none none none) _ _
+        (hdrNoMatch_append_of sNewMode _ 110 _ rfl (by decide)) (parse_newMode x rest hx) rfl
+      simpa [passExt, mk] using this
+
+theorem block_index (total : Nat) (op np : Option Nat) (oh nh : Option Bytes) (rest : Bytes) (O N : Filename)
+    (ren ext : Bool) : HashOK oh nh →
+    ∃ k, k ≤ 1 ∧ Steps total k
+      ((match oh, nh with
+        | some a, some b => sIndex ++ a ++ sDotDot ++ b ++ [10]
+        | _, _ => []) ++ rest) ext
+      (mk O N ren op np none none) rest (ext || oh.isSome) (mk O N ren op np oh nh) := by
+  intro hh
+  rcases hh with ⟨rfl, rfl⟩ | ⟨a, b, rfl, rfl, ha, hb⟩
+  · exact ⟨0, by omega, by simpa using Steps_refl total rest ext _⟩
+  · refine ⟨1, by omega, ?_⟩
+    have := Steps_one total _ _ ext (mk O N ren op np none none) _ _
+      (hdrNoMatch_append_of sIndex _ 105 _ rfl (by decide)) (parse_index a b rest ha hb) rfl
+    simpa [passExt, mk] using this
+
+theorem block_names (total : Nat) (op np : Option Nat) (oh nh : Option Bytes) (rest : Bytes) (O N : Filename)
+    (ren ext : Bool) (o n : Option Bytes) (ho : o ≠ some nullFilename) (hn : n ≠ some nullFilename) :
+    Steps total 2
+      (sMinus ++ (nameBytes o ++ 10 :: (sPlus ++ (nameBytes n ++ 10 :: rest)))) ext
+      (mk O N ren op np oh nh) rest ext (mk (nameVal o) (nameVal n) ren op np oh nh) := by
+  have s1 := Steps_one total _ _ ext (mk O N ren op np oh nh) _ _
+    (hdrNoMatch_append_of sMinus _ 45 _ rfl (by decide))
+    (parse_minus true o (sPlus ++ (nameBytes n ++ 10 :: rest)) ho) rfl
+  have s2 := Steps_one total _ _ (passExt ext (.mline (.minus (nameVal o))))
+    { mk O N ren op np oh nh with old := some (nameVal o) } _ _
+    (hdrNoMatch_append_of sPlus _ 43 _ rfl (by decide)) (parse_plus true n rest hn) rfl
+  have := Steps_trans s1 s2
+  simpa [passExt, mk] using this
+
+/-! ### the whole header -/
+
+def oName (f : PFilePatch) : Bytes := (f.old.orElse (fun _ => f.new)).getD []
+def nName (f : PFilePatch) : Bytes := (f.new.orElse (fun _ => f.old)).getD []
+
+/-- the header lines after the `diff --git` line, followed by `rest` -/
+def hdrTailR (f : PFilePatch) (rest : Bytes) : Bytes :=
+  (if f.rename then sRenameFrom ++ writeName (oName f) ++ [10] ++ sRenameTo ++ writeName (nName f) ++ [10] else []) ++
+  ((match f.oldPerm with
+    | some m => (if f.kind == .delete then sDeletedFileMode else sOldMode) ++ oct6 m ++ [10]
+    | none => []) ++
+  ((match f.newPerm with
+    | some m => (if f.kind == .create then sNewFileMode else sNewMode) ++ oct6 m ++ [10]
+    | none => []) ++
+  ((match f.oldHash, f.newHash with
+    | some a, some b => sIndex ++ a ++ sDotDot ++ b ++ [10]
+    | _, _ => []) ++
+  (sMinus ++ (nameBytes f.old ++ 10 :: (sPlus ++ (nameBytes f.new ++ 10 :: rest)))))))
+
+theorem writeFileHeader_eq (f : PFilePatch) (rest : Bytes) :
+    writeFileHeader f ++ rest =
+      sDiffGit ++ (writeName (oName f) ++ 32 :: (writeName (nName f) ++ 10 :: hdrTailR f rest)) := by
+  simp only [writeFileHeader, hdrTailR, oName, nName, nameBytes, List.append_assoc, List.cons_append, List.nil_append]
+  rfl
+
+theorem nullNamed_false (f : PFilePatch) (h : nullNamed f = false) :
+    f.old ≠ some nullFilename ∧ f.new ≠ some nullFilename := by
+  simp only [nullNamed, Bool.or_eq_false_iff, beq_eq_false_iff_ne, ne_eq] at h
+  exact h
+
+theorem header_steps (total : Nat) (f : PFilePatch) (ok : FPOK' f) (hnn : nullNamed f = false) (rest : Bytes)
+    (ext : Bool) (O N : Filename) :
+    ∃ k, k ≤ 7 ∧ Steps total k (hdrTailR f rest) ext (mk O N false none none none none) rest
+      (ext || f.rename || f.oldPerm.isSome || f.newPerm.isSome || f.oldHash.isSome)
+      (mk (nameVal f.old) (nameVal f.new) f.rename f.oldPerm f.newPerm f.oldHash f.newHash) := by
+  obtain ⟨hno, hnn'⟩ := nullNamed_false f hnn
+  unfold hdrTailR
+  obtain ⟨k1, b1, s1⟩ := block_rename total f.rename (oName f) (nName f)
+    ((match f.oldPerm with
+    | some m => (if f.kind == .delete then sDeletedFileMode else sOldMode) ++ oct6 m ++ [10]
+    | none => []) ++
+  ((match f.newPerm with
+    | some m => (if f.kind == .create then sNewFileMode else sNewMode) ++ oct6 m ++ [10]
+    | none => []) ++
+  ((match f.oldHash, f.newHash with
+    | some a, some b => sIndex ++ a ++ sDotDot ++ b ++ [10]
+    | _, _ => []) ++
+  (sMinus ++ (nameBytes f.old ++ 10 :: (sPlus ++ (nameBytes f.new ++ 10 :: rest))))))) O N ext
+  obtain ⟨k2, b2, s2⟩ := block_oldPerm total (f.kind == .delete) f.oldPerm
+    ((match f.newPerm with
+    | some m => (if f.kind == .create then sNewFileMode else sNewMode) ++ oct6 m ++ [10]
+    | none => []) ++
+  ((match f.oldHash, f.newHash with
+    | some a, some b => sIndex ++ a ++ sDotDot ++ b ++ [10]
+    | _, _ => []) ++
+  (sMinus ++ (nameBytes f.old ++ 10 :: (sPlus ++ (nameBytes f.new ++ 10 :: rest)))))) O N f.rename (ext || f.rename)
+    ok.oldPerm
+  obtain ⟨k3, b3, s3⟩ := block_newPerm total (f.kind == .create) f.oldPerm f.newPerm
+    ((match f.oldHash, f.newHash with
+    | some a, some b => sIndex ++ a ++ sDotDot ++ b ++ [10]
+    | _, _ => []) ++
+  (sMinus ++ (nameBytes f.old ++ 10 :: (sPlus ++ (nameBytes f.new ++ 10 :: rest))))) O N f.rename
+    (ext || f.rename || f.oldPerm.isSome) ok.newPerm
+  obtain ⟨k4, b4, s4⟩ := block_index total f.oldPerm f.newPerm f.oldHash f.newHash
+    (sMinus ++ (nameBytes f.old ++ 10 :: (sPlus ++ (nameBytes f.new ++ 10 :: rest)))) O N f.rename
+    (ext || f.rename || f.oldPerm.isSome || f.newPerm.isSome) ok.hash
+  have s5 := block_names total f.oldPerm f.newPerm f.oldHash f.newHash rest O N f.rename
+    (ext || f.rename || f.oldPerm.isSome || f.newPerm.isSome || f.oldHash.isSome) f.old f.new hno hnn'
+  refine ⟨_, ?_, Steps_trans s1 (Steps_trans s2 (Steps_trans s3 (Steps_trans s4 s5)))⟩
+  omega
+
+/-! ### the result -/
+
+theorem realName_nameVal (n : Option Bytes) : realName (some (nameVal n)) = n := by
+  cases n <;> rfl
+
+theorem build_final (f : PFilePatch) (ok : FPOK f) (hs : List PHunk) :
+    buildFilePatch (mk (nameVal f.old) (nameVal f.new) f.rename f.oldPerm f.newPerm f.oldHash f.newHash) hs =
+      some { kind := recognizeKind hs, old := f.old, new := f.new, rename := f.rename, oldPerm := f.oldPerm,
+             newPerm := f.newPerm, oldHash := f.oldHash, newHash := f.newHash, hunks := hs } := by
+  unfold buildFilePatch
+  simp only [mk, realName_nameVal, Bool.and_self]
+  have h1 := ok.renOK
+  have h2 := ok.nameOK
+  cases hr : f.rename
+  · have : (!f.old.isSome && !f.new.isSome) = false := by
+      rcases h2 with h | h <;> simp [h]
+    simp only [Bool.false_and, Bool.false_eq_true, if_false, Bool.not_false, Bool.true_and, this]
+  · obtain ⟨a, b⟩ := h1 hr
+    simp [a, b]
+
+/-- the kind only depends on what `sameHunk` compares, for hunks whose context counts vanish with a side -/
+theorem recognizeKind_same (hs hs' : List PHunk) (h : sameHunks hs hs') (c : ∀ x ∈ hs, CtxZ x) (c' : ∀ x ∈ hs', CtxZ x) :
+    recognizeKind hs = recognizeKind hs' := by
+  have key : ∀ x : PHunk, CtxZ x → recognizeKind [x] =
+      (if x.add.isEmpty ∧ x.addLine = 0 ∧ !x.rem.isEmpty then Kind.delete
+       else if !x.add.isEmpty ∧ x.rem.isEmpty ∧ x.remLine = 0 then Kind.create else Kind.modify) := by
+    intro x cx
+    unfold recognizeKind
+    by_cases hz : x.suf = 0 ∧ x.pre = 0
+    · simp only [hz, and_self, if_true]
+    · simp only [hz, if_false]
+      have : ¬ (x.add = [] ∨ x.rem = []) := by
+        intro hh; have := cx hh; exact hz ⟨this.2, this.1⟩
+      have ha : x.add.isEmpty = false := by
+        cases hx : x.add with
+        | nil => exact absurd (Or.inl hx) this
+        | cons _ _ => rfl
+      have hb : x.rem.isEmpty = false := by
+        cases hx : x.rem with
+        | nil => exact absurd (Or.inr hx) this
+        | cons _ _ => rfl
+      simp [ha, hb]
+  match hs, hs', h with
+  | [], [], _ => rfl
+  | [a], [b], h =>
+    obtain ⟨⟨e1, e2, e3, e4, _⟩, _⟩ := h
+    rw [key a (c a (by simp)), key b (c' b (by simp)), e1, e2, e3, e4]
+  | a :: a2 :: as, b :: b2 :: bs, _ => rfl
+  | [], _ :: _, h => simp [sameHunks] at h
+  | _ :: _, [], h => simp [sameHunks] at h
+  | [_], _ :: _ :: _, h => simp [sameHunks] at h
+  | _ :: _ :: _, [_], h => simp [sameHunks] at h
+
+/-- what may follow a written file patch: the end of the input or the next `diff --git` line -/
+def NextOK (next : Bytes) : Prop :=
+  next = [] ∨ ∃ x o n r, next = sDiffGit ++ x ∧ gitDiffBody x = .ok (r, .gitDiff o n)
+
+theorem NextOK_No92 (next : Bytes) (h : NextOK next) : No92 next := by
+  rcases h with rfl | ⟨x, o, n, r, rfl, _⟩
+  · intro r' e; cases e
+  · intro r' e; simp [sDiffGit] at e
+
+theorem NextOK_hdr (next : Bytes) (h : NextOK next) : hdrNoMatch next = true := by
+  rcases h with rfl | ⟨x, o, n, r, rfl, _⟩
+  · exact hdrNoMatch_nil
+  · exact hdrNoMatch_append_of sDiffGit _ 100 _ rfl (by decide)
+
+theorem sameHunks_refl_of (hs : List PHunk) : sameHunks hs hs := by
+  induction hs with
+  | nil => trivial
+  | cons h hs ih => exact ⟨⟨rfl, rfl, rfl, rfl, rfl⟩, ih⟩
+
+/-- **L4**: reading back a written file patch, from just after its `diff --git` line -/
+theorem filePatch_tail (total : Nat) (f : PFilePatch) (ok : FPOK' f) (hnn : nullNamed f = false)
+    (hk : noopHunkless f = false) (next : Bytes) (hnext : NextOK next) (ext : Bool) (O N : Filename)
+    (F : Nat) (hF : 9 ≤ F) (wH : Bool) (hd : Nat) :
+    ∃ fp', filePatchLoop total F (hdrTailR f ((f.hunks.map writeHunk).flatten ++ next)) wH hd true ext
+        (mk O N false none none none none) = .ok (next, hd, fp') ∧ sameFP f (stripFP 0 fp') := by
+  obtain ⟨k, hk7, st⟩ := header_steps total f ok hnn ((f.hunks.map writeHunk).flatten ++ next) ext O N
+  obtain ⟨F', rfl⟩ : ∃ F', F = (F' + 1) + k := ⟨F - 1 - k, by omega⟩
+  rw [st (F' + 1) wH hd]
+  generalize hext : (ext || f.rename || f.oldPerm.isSome || f.newPerm.isSome || f.oldHash.isSome) = ext'
+  have hb := fun hs => build_final f ok.toFPOK hs
+  have hfin : ∀ hs', sameHunks f.hunks hs' → (∀ x ∈ hs', CtxZ x) →
+      sameFP f (stripFP 0 { kind := recognizeKind hs', old := f.old, new := f.new, rename := f.rename, oldPerm := f.oldPerm, newPerm := f.newPerm, oldHash := f.oldHash, newHash := f.newHash, hunks := hs' }) := by
+    intro hs' sh cz
+    refine ⟨?_, ?_, ?_, rfl, rfl, rfl, rfl, rfl, sh⟩
+    · simp only [stripFP]
+      rw [ok.kindOK]
+      exact recognizeKind_same _ _ sh (fun x hx => (ok.hunksOK x hx).2) cz
+    · simp only [stripFP]
+      cases ho : f.old with
+      | none => rfl
+      | some n => simp [ok.oldFix n ho]
+    · simp only [stripFP]
+      cases ho : f.new with
+      | none => rfl
+      | some n => simp [ok.newFix n ho]
+  cases hh : f.hunks with
+  | nil =>
+    -- no hunks: the patch ends at `next`
+    simp only [List.map_nil, List.flatten_nil, List.nil_append]
+    have hext' : ext' = true := by
+      rw [← hext]
+      simp only [noopHunkless, hh, List.isEmpty_nil, Bool.true_and] at hk
+      have hash := ok.hash
+      rcases hash with ⟨h1, h2⟩ | ⟨a, b, h1, h2, _⟩
+      · simp [h1, h2] at hk
+        cases hr : f.rename <;> cases ho : f.oldPerm <;> cases hn : f.newPerm <;> simp_all
+      · simp [h1]
+    subst hext'
+    have hc := lineCond_of_hdr (mk (nameVal f.old) (nameVal f.new) f.rename f.oldPerm f.newPerm f.oldHash f.newHash)
+      next (NextOK_hdr next hnext)
+    rcases hnext with rfl | ⟨x, o, n, r, rfl, hx⟩
+    · have hp : parsePatchLine true [] = .ok ([], .endOfPatch) := rfl
+      rw [fpl_end _ _ _ _ _ _ _ _ _ hc hp]
+      simp only [if_true, hb []]
+      exact ⟨_, rfl, hfin [] (by rw [hh]; trivial) (by simp)⟩
+    · have hp : parsePatchLine true (sDiffGit ++ x) = .ok (r, .mline (.gitDiff o n)) :=
+        parsePatchLine_mline _ _ _ _ (by rw [meta_gitDiff]; exact hx)
+      rw [fpl_gitDiff _ _ _ _ _ _ _ _ _ _ _ hc hp]
+      simp only [if_true, hb []]
+      exact ⟨_, rfl, hfin [] (by rw [hh]; trivial) (by simp)⟩
+  | cons h0 hs0 =>
+    rw [← hh]
+    have hokh : ∀ h ∈ f.hunks, HunkOK h := fun h hm => (ok.hunksOK h hm).1
+    have hc : lineCond (mk (nameVal f.old) (nameVal f.new) f.rename f.oldPerm f.newPerm f.oldHash f.newHash)
+        ((f.hunks.map writeHunk).flatten ++ next) = false := by
+      have : hdrNoMatch ((f.hunks.map writeHunk).flatten ++ next) = false := by
+        cases hv : hdrNoMatch ((f.hunks.map writeHunk).flatten ++ next) with
+        | false => rfl
+        | true =>
+          rw [hdrNoMatch_iff] at hv
+          rw [hh] at hv
+          simp only [List.map_cons, List.flatten_cons, List.append_assoc, writeHunk, writeHunkHeader] at hv
+          rw [stripPrefix_append] at hv
+          cases hv
+      simp [lineCond, this, haveFilename, mk]
+    rw [fpl_hunks _ _ _ _ _ _ _ _ hc]
+    have hnm : stripPrefix sHunkStart next = none := (hdrNoMatch_iff next).mp (NextOK_hdr next hnext)
+    obtain ⟨hs', e1, e2⟩ := hunksLoop_written f.hunks (((f.hunks.map writeHunk).flatten ++ next).length + 2) next []
+      hokh (NextOK_No92 next hnext) hnm (by have := writeHunks_length f.hunks; simp only [List.length_append]; omega)
+    rw [e1]
+    simp only [List.nil_append, hb hs']
+    have cz : ∀ x ∈ hs', CtxZ x := fun x hx => (hunksLoop_inv _ _ _ _ _ e1 (by simp) x (by simpa using hx)).2
+    exact ⟨_, rfl, hfin hs' e2 cz⟩
+
 end RQ.Write
